@@ -175,6 +175,9 @@ pub enum Val {
     TlvTupleType(usize, Blob),
     /// `TypeLengthValues::from(bytes)`
     Section(Blob),
+    /// `TypeLengthValues::from(bytes)` whose iterator was advanced `k` times before being written:
+    /// the value is still the whole section
+    SectionAdv(Blob, u8),
     /// `Type`, index into TYPE_CODES
     Type(usize),
 }
@@ -222,7 +225,7 @@ impl Val {
             Val::Addr(a) => a.encode(),
             Val::TlvStruct(k, b) | Val::TlvTuple(k, b) => tlv(*k, &b.bytes())?,
             Val::TlvTupleType(t, b) => tlv(TYPE_CODES[*t].1, &b.bytes())?,
-            Val::Section(b) => b.bytes(),
+            Val::Section(b) | Val::SectionAdv(b, _) => b.bytes(),
             Val::Type(t) => vec![TYPE_CODES[*t].1],
         })
     }
@@ -247,6 +250,7 @@ impl Val {
             Val::TlvTuple(..) => "tuple",
             Val::TlvTupleType(..) => "tuplet",
             Val::Section(_) => "section",
+            Val::SectionAdv(..) => "section-advanced",
             Val::Type(_) => "type",
         }
     }
@@ -271,6 +275,7 @@ impl Val {
             Val::TlvTuple(k, b) => format!("tuple,{},{}", k, b.text()),
             Val::TlvTupleType(t, b) => format!("tuplet,{},{}", t, b.text()),
             Val::Section(b) => format!("section,{}", b.text()),
+            Val::SectionAdv(b, k) => format!("sectionadv,{},{}", b.text(), k),
             Val::Type(t) => format!("type,{}", t),
         }
     }
@@ -297,6 +302,7 @@ impl Val {
             "tuple" => Val::TlvTuple(a.parse().ok()?, Blob::parse(p.get(2)?)?),
             "tuplet" => Val::TlvTupleType(a.parse().ok()?, Blob::parse(p.get(2)?)?),
             "section" => Val::Section(Blob::parse(a)?),
+            "sectionadv" => Val::SectionAdv(Blob::parse(a)?, p.get(2)?.parse().ok()?),
             "type" => Val::Type(a.parse().ok()?),
             _ => return None,
         })
@@ -592,7 +598,11 @@ pub fn rand_val(rng: &mut Rng, big_ok: bool) -> Val {
             if b.len > 70000 {
                 b.len = 70000;
             }
-            Val::Section(b)
+            if rng.coin() {
+                Val::Section(b)
+            } else {
+                Val::SectionAdv(b, rng.below(4) as u8 + 1)
+            }
         }
         _ => Val::Type(rng.below(12) as usize),
     }
